@@ -24,6 +24,13 @@ Theorem C03_request_body_bounded_by_input :
     (length (match r_content r with Some d => d | None => [] end) + length rest <= length l)%nat.
 Proof. exact parse_request_flat_alloc. Qed.
 
+(* ... and the same for responses, under Content-Length framing and under chunked coding: a claimed length or chunk size
+   larger than what follows is an error, and the body handed back never exceeds the bytes supplied *)
+Theorem C03_response_body_bounded_by_input :
+  forall (l : bytes) (r : response) (rest : bytes),
+    parse_response_flat l = Ok (r, rest) -> (length (s_body r) + length rest <= length l)%nat.
+Proof. exact parse_response_flat_alloc. Qed.
+
 (* Non-vacuity / the repaired panic sites: a header line that ends inside a multi-byte character without CRLF, a
    response header without a colon, and a 60-byte request claiming 10^14 bytes are all plain errors. *)
 Example C03_example_former_panics :
@@ -37,4 +44,5 @@ Proof. vm_compute. repeat split. Qed.
 Print Assumptions C03_parse_request_safe.
 Print Assumptions C03_parse_response_safe.
 Print Assumptions C03_request_body_bounded_by_input.
+Print Assumptions C03_response_body_bounded_by_input.
 Print Assumptions C03_example_former_panics.
